@@ -338,92 +338,110 @@ def run_plan(w, cfg, plan, ref, tape, *, seen_digests=None):
             if pre.outcome != "ok":
                 info["skipped"] = True
                 return viol, info
-        stored_sets = []
-        later_calls = []
-        n_attempt = 0
+        # a plan may consist of several episodes: an interruption flagged `new_episode` belongs to a NEW
+        # map(cleanup=True) into the same folder, started after the previous episode was resumed to completion
+        episodes = [[]]
         for it in plan:
-            a = run_attempt(w, cfg, root, tape, attempt=n_attempt, cleanup=(n_attempt == 0), interruption=it)
-            info["yields"] += a.steps
-            for k2, v2 in a.probes.items():
-                info["probes"][k2] = info["probes"].get(k2, 0) + v2
-            later_calls.append(a.calls)
-            if it["kind"] == "crash" and a.outcome == "ok":
-                info["probes"]["crash_point_beyond_run"] = info["probes"].get("crash_point_beyond_run", 0) + 1
-            elif it["kind"] == "crash" and a.outcome != "crash":
-                V("interrupted-attempt", f"ended-with:{a.outcome}:{type(a.exc).__name__}",
-                  {"plan": plan, "exc": repr(a.exc)[:300], "note": a.crash_note}, _sig(a.exc, it, a))
-                return viol, info
-            elif it["kind"] == "raise" and a.outcome not in ("raised", "ok"):
-                V("interrupted-attempt", f"ended-with:{a.outcome}:{type(a.exc).__name__}",
-                  {"plan": plan, "exc": repr(a.exc)[:300]}, _sig(a.exc, it, a))
-                return viol, info
-            if a.outcome == "crash":
-                info["probes"]["crash_in_write"] = info["probes"].get("crash_in_write", 0) + (
-                    1 if a.crash_note and "write" in a.crash_note else 0)
-            if a.outcome == "crash" and a.trace:
-                last_ev = a.trace[-1]
-                it["hit"] = ("torn-" if it.get("torn") and last_ev[1] == "write" else "") + f"{last_ev[1]}:{file_class(last_ev[2])}"
-                it["phase"] = "run" if any(e[1] in ("mkdir", "open", "write", "replace") for e in a.trace[:-1]) else "cleanup"
-            td = simfs.tree_digest(root)
-            info["tree_digests"].append(td)
-            stored_sets.append(stored_elements(folder, w, ref))
-            if stored_sets[-1]:
-                info["probes"]["resume_with_stored_elements"] = info["probes"].get("resume_with_stored_elements", 0) + 1
-            n_attempt += 1
-        if seen_digests is not None and len(plan) == 1 and info["tree_digests"]:
-            key = (info["tree_digests"][-1],)
-            if key in seen_digests:
-                info["skipped"] = True
-                info["probes"]["dedup_same_tree"] = 1
-                return viol, info
-            seen_digests.add(key)
-        fin = run_attempt(w, cfg, root, tape, attempt=n_attempt, cleanup=False)
-        info["yields"] += fin.steps
-        later_calls.append(fin.calls)
-        info["final_digest"] = fin.digest
-        last = plan[-1] if plan else None
-        if fin.outcome != "ok":
-            V("resume", f"resume-failed:{fin.outcome}:{type(fin.exc).__name__}",
-              {"plan": plan, "exc": repr(fin.exc)[:400]}, _sig(fin.exc, last, fin))
-            return viol, info
-        # 2. results
-        for o in all_outputs(w):
-            got = canon(fin.res[o].output)
-            if got != ref.R0[o]:
-                V("resume", "result-differs", {"plan": plan, "output": o, "got": repr(got)[:300], "ref": repr(ref.R0[o])[:300]},
-                  _sig(None, last, fin))
-                break
-        else:
-            from pipefunc.map import load_outputs
+            if it.get("new_episode") and episodes[-1]:
+                episodes.append([])
+            episodes[-1].append(it)
+        counter = [0]
 
-            sim = C.new_sim(Tape(recorded=[]), root, preempt=0.0)
-
-            def loads():
-                for o in all_outputs(w):
-                    try:
-                        got = canon(load_outputs(o, run_folder=folder))
-                    except Exception as e:  # noqa: BLE001
-                        V("resume", f"load-after-resume-raised:{type(e).__name__}", {"plan": plan, "output": o, "exc": repr(e)[:300]},
-                          _sig(e, last, fin))
-                        break
-                    if got != ref.R0[o]:
-                        V("resume", "loaded-differs", {"plan": plan, "output": o, "got": repr(got)[:300]}, _sig(None, last, fin))
-                        break
-
-            with sim:
-                sim.kernel.run(loads)
-            simmanager.shutdown_all(sim)
-        # 3. no stored work redone
-        for ai, S in enumerate(stored_sets):
-            for bi in range(ai + 1, len(later_calls)):
-                redone = [c for c in later_calls[bi] if c.key() in S]
-                if redone:
-                    V("no-redo", "stored-element-recomputed", {"plan": plan, "call": repr(redone[0]), "stored_after_attempt": ai,
-                                                               "recomputed_in_attempt": bi}, _sig(None, last, fin))
+        def episode(ep):
+            stored_sets = []
+            later_calls = []
+            n_attempt = 0
+            for it in ep:
+                a = run_attempt(w, cfg, root, tape, attempt=counter[0] + n_attempt, cleanup=(n_attempt == 0), interruption=it)
+                info["yields"] += a.steps
+                for k2, v2 in a.probes.items():
+                    info["probes"][k2] = info["probes"].get(k2, 0) + v2
+                later_calls.append(a.calls)
+                if it["kind"] == "crash" and a.outcome == "ok":
+                    info["probes"]["crash_point_beyond_run"] = info["probes"].get("crash_point_beyond_run", 0) + 1
+                elif it["kind"] == "crash" and a.outcome != "crash":
+                    V("interrupted-attempt", f"ended-with:{a.outcome}:{type(a.exc).__name__}",
+                      {"plan": plan, "exc": repr(a.exc)[:300], "note": a.crash_note}, _sig(a.exc, it, a))
+                    return False
+                elif it["kind"] == "raise" and a.outcome not in ("raised", "ok"):
+                    V("interrupted-attempt", f"ended-with:{a.outcome}:{type(a.exc).__name__}",
+                      {"plan": plan, "exc": repr(a.exc)[:300]}, _sig(a.exc, it, a))
+                    return False
+                if a.outcome == "crash":
+                    info["probes"]["crash_in_write"] = info["probes"].get("crash_in_write", 0) + (
+                        1 if a.crash_note and "write" in a.crash_note else 0)
+                if a.outcome == "crash" and a.trace:
+                    last_ev = a.trace[-1]
+                    it["hit"] = ("torn-" if it.get("torn") and last_ev[1] == "write" else "") + f"{last_ev[1]}:{file_class(last_ev[2])}"
+                    it["phase"] = "run" if any(e[1] in ("mkdir", "open", "write", "replace") for e in a.trace[:-1]) else "cleanup"
+                td = simfs.tree_digest(root)
+                info["tree_digests"].append(td)
+                stored_sets.append(stored_elements(folder, w, ref))
+                if stored_sets[-1]:
+                    info["probes"]["resume_with_stored_elements"] = info["probes"].get("resume_with_stored_elements", 0) + 1
+                n_attempt += 1
+            if seen_digests is not None and len(plan) == 1 and len(episodes) == 1 and info["tree_digests"]:
+                key = (info["tree_digests"][-1],)
+                if key in seen_digests:
+                    info["skipped"] = True
+                    info["probes"]["dedup_same_tree"] = 1
+                    return False
+                seen_digests.add(key)
+            fin = run_attempt(w, cfg, root, tape, attempt=counter[0] + n_attempt, cleanup=False)
+            info["yields"] += fin.steps
+            later_calls.append(fin.calls)
+            info["final_digest"] = fin.digest
+            last = ep[-1] if ep else None
+            if fin.outcome != "ok":
+                V("resume", f"resume-failed:{fin.outcome}:{type(fin.exc).__name__}",
+                  {"plan": plan, "exc": repr(fin.exc)[:400]}, _sig(fin.exc, last, fin))
+                return False
+            # 2. results
+            for o in all_outputs(w):
+                got = canon(fin.res[o].output)
+                if got != ref.R0[o]:
+                    V("resume", "result-differs", {"plan": plan, "output": o, "got": repr(got)[:300], "ref": repr(ref.R0[o])[:300]},
+                      _sig(None, last, fin))
                     break
             else:
-                continue
-            break
+                from pipefunc.map import load_outputs
+
+                sim = C.new_sim(Tape(recorded=[]), root, preempt=0.0)
+
+                def loads():
+                    for o in all_outputs(w):
+                        try:
+                            got = canon(load_outputs(o, run_folder=folder))
+                        except Exception as e:  # noqa: BLE001
+                            V("resume", f"load-after-resume-raised:{type(e).__name__}", {"plan": plan, "output": o, "exc": repr(e)[:300]},
+                              _sig(e, last, fin))
+                            break
+                        if got != ref.R0[o]:
+                            V("resume", "loaded-differs", {"plan": plan, "output": o, "got": repr(got)[:300]}, _sig(None, last, fin))
+                            break
+
+                with sim:
+                    sim.kernel.run(loads)
+                simmanager.shutdown_all(sim)
+            # 3. no stored work redone
+            for ai, S in enumerate(stored_sets):
+                for bi in range(ai + 1, len(later_calls)):
+                    redone = [c for c in later_calls[bi] if c.key() in S]
+                    if redone:
+                        V("no-redo", "stored-element-recomputed", {"plan": plan, "call": repr(redone[0]), "stored_after_attempt": ai,
+                                                                   "recomputed_in_attempt": bi}, _sig(None, last, fin))
+                        break
+                else:
+                    continue
+                break
+            counter[0] += n_attempt + 1
+            return True
+
+        for ep in episodes:
+            if not episode(ep) or viol:
+                break
+            if len(episodes) > 1:
+                info["probes"]["episodes"] = info["probes"].get("episodes", 0) + 1
     return viol, info
 
 
@@ -533,6 +551,15 @@ def run_case(case, exec_seed=None, exec_tape=None):
             b = {"kind": "crash", "at": 1 + sel.choose(max(1, base.n_events), "pair-b"), "torn": sel.pick([None, None, 1], "pair-torn"),
                  "hit": "second"}
             plans.append([a, b])
+    # two-episode plans: a cleanup=True map dies, is resumed to completion, and a LATER cleanup=True map into the
+    # same folder dies as well (during its cleanup of the first one) before it is resumed
+    if cfg.get("episodes", True):
+        crashes = [p0 for p0 in plans if len(p0) == 1 and p0[0]["kind"] == "crash"]
+        early = [p0 for p0 in crashes if p0[0]["at"] <= 12] or crashes
+        for _ in range(min(8, len(crashes))):
+            a = dict(sel.pick(early if sel.coin(0.7, "ep-early") else crashes, "ep-a")[0])
+            b = {"kind": "crash", "at": 2 + sel.choose(14, "ep-b"), "torn": None, "hit": "episode-2", "new_episode": True}
+            plans.append([a, b])
     seen = set()
     nontrivial = set()
     for pi, plan in enumerate(plans):
@@ -543,8 +570,9 @@ def run_case(case, exec_seed=None, exec_tape=None):
         if info["skipped"]:
             continue
         out["evaluations"] += 1
-        probes[f"plan:{plan[0]['kind']}" + (":torn" if plan[0].get("torn") else "") + (":pair" if len(plan) > 1 else "")] = \
-            probes.get(f"plan:{plan[0]['kind']}" + (":torn" if plan[0].get("torn") else "") + (":pair" if len(plan) > 1 else ""), 0) + 1
+        pk = f"plan:{plan[0]['kind']}" + (":torn" if plan[0].get("torn") else "") + \
+            (":two-episodes" if any(x.get("new_episode") for x in plan) else (":pair" if len(plan) > 1 else ""))
+        probes[pk] = probes.get(pk, 0) + 1
         for td in info["tree_digests"]:
             nontrivial.add(td)
         for v in viol:
